@@ -78,9 +78,12 @@ def _dtype(rng):
     return "complex128" if r < 0.8 else "complex64" if r < 0.9 else "float64"
 
 
-def build_checked(desc):
+def build_checked(desc, prime=False):
     """Build; returns (A, None) or (None, result-dict)."""
     try:
+        if prime:
+            # construction history: sibling operators (axes in another order / spelling) first
+            lops.prime_siblings(desc)
         A = lops.build(desc)
     except Exception as e:
         return None, inconclusive("constructor raised %s: %s [%s]" % (
@@ -101,7 +104,7 @@ def run_case(case):
     sig = lops.signature(desc) + "|" + dt.name
     leafs = lops.leaf_ops(desc)
     nontrivial = any(l != "Identity" for l in leafs)
-    A, bad = build_checked(desc)
+    A, bad = build_checked(desc, prime=bool(sum(case["rs"]) % 2))
     if A is None:
         return bad
     wit = {"desc": desc, "dtype": dt.name, "repr": repr(A)}
